@@ -1,7 +1,7 @@
 (* Model of golem/core/optimisers/genetic/operators/inheritance.py (property C16).
    Definitions only. *)
 From Coq Require Import List Bool Arith QArith.
-From GolemV Require Import Fitness.Fitness Evo.Selection.
+From GolemV Require Import Fitness.Fitness Evo.Selection Evo.Elitism.
 Import ListNotations.
 Local Open Scope nat_scope.
 
@@ -43,3 +43,20 @@ Definition inh_holds_b (sc : scheme) (pop_size : nat) (prev new : list ind) (out
       | _ => implb (2 <=? n_distinct (prev ++ new)) (nodup_uid o)
       end
   end.
+
+(* ---- sessions: one operator instance, the shared parameters object changed between calls.
+   The operators read their parameters at call time, so a session is nothing but the list of
+   the per-call functions applied to the parameters in force at each call (no state is carried
+   from one call to the next). ---- *)
+Inductive op_call :=
+| CallSelection (t : sel_type) (o : sel_oracle) (default_size : nat) (population : list ind) (pop_size : nat)
+| CallElitism (p : eparams) (cs : list nat) (best new : list ind)
+| CallInheritance (sc : scheme) (t : sel_type) (o : sel_oracle) (pop_size : nat) (prev new : list ind).
+
+Definition run_call (c : op_call) : option (list ind) :=
+  match c with
+  | CallSelection t o d population ps => selection_call t o d population ps
+  | CallElitism p cs best new => Some (elitism p cs best new)
+  | CallInheritance sc t o ps prev new => inherit sc t o ps prev new
+  end.
+Definition run_session (calls : list op_call) : list (option (list ind)) := map run_call calls.
